@@ -31,11 +31,12 @@ def run(rep, tier):
         "the bit-mask wrap is modelled as mathematical modulus; the real mask is exercised by the driver for offsets -3nt..3nt",
         "automatic split: pi bracketed by 333/106 < pi < 355/113 (instances falling in the gap are skipped, none for these sizes)",
     ]
-    runs = [("u", "{2,3,4,5,6,7,9}", "{2,4,6,8,12,16}", True), ("n", "{3,5}", "{4,8}", False)]
-    if thorough:
-        runs = [("u", "{2,3,4,5,6,7,8,9,11,13,17}", "{2,4,6,8,10,12,16,20,24,32}", True), ("n", "{3,4,5,7}", "{4,8}", False), ("n2", "{5}", "{12}", False)]
-    for tag, nrs, nts, uni in runs:
-        r = vlib.tlc("PolarGridSpec", cfg("grid_%s_%s" % (tier, tag), nrs, nts, uni, True, "{1,2,3}" if thorough else "{1,3}"), heap="12g", tag="c17" + tag, timeout=3000, workers=8)
+    runs = [("u", "{2,3,4,5,6,7,9}", "{2,4,6,8,12,16}", True, "{1,3}"), ("n", "{3,5}", "{4,8}", False, "{1,3}")]
+    if thorough:     # sized so that every run ends within minutes (3^(nr-1+nt) spacing patterns for the non-uniform families)
+        runs = [("u", "{2,3,4,5,6,7,8,9,11,13,17}", "{2,4,6,8,10,12,16,20,24,32}", True, "{1,2,3}"), ("n", "{3,4,5}", "{4}", False, "{1,2,3}"),
+                ("n2", "{5,7}", "{8}", False, "{1,3}"), ("n3", "{3}", "{12}", False, "{1,3}")]
+    for tag, nrs, nts, uni, spacing in runs:
+        r = vlib.tlc("PolarGridSpec", cfg("grid_%s_%s" % (tier, tag), nrs, nts, uni, True, spacing), heap="12g", tag="c17" + tag, timeout=3000, workers=8)
         rep.add_tlc(r, "grids nr in %s nt in %s uniform=%s" % (nrs, nts, uni))
         if not vlib.tlc_must_hold(r, "PolarGridSpec"):
             rep.violation("model:" + r.violation, "PolarGridSpec.tla: %s violated\n%s" % (r.violation, vlib.counterexample(r)[:2500]),
